@@ -658,12 +658,20 @@ func generateLR(c *gctx) *Grammar {
 			&Rule{Name: "Aa", Expr: &Expr{Kind: Choice, Subs: []*Expr{act(seq(ref("Bb"), operand())), act(operand())}}},
 			&Rule{Name: "Bb", Expr: &Expr{Kind: Choice, Subs: []*Expr{act(seq(ref("Cc"), operand())), seq(ref("Aa"), operand()), operand()}}},
 			&Rule{Name: "Cc", Expr: &Expr{Kind: Choice, Subs: []*Expr{seq(ref("Aa"), operand()), operand()}}})
+	case -1:
 	default: // nullable prefix before the recursive reference
 		g.Rules = append(g.Rules,
 			&Rule{Name: "Start", Expr: ref("Aa")},
 			&Rule{Name: "Aa", Expr: &Expr{Kind: Choice, Subs: []*Expr{ref("Bb"), &Expr{Kind: Opt, Subs: []*Expr{c.lit()}}}}},
 			&Rule{Name: "Bb", Expr: seq(ref("Aa"), ref("Cc"))},
 			&Rule{Name: "Cc", Expr: seq(ref("Bb"), c.lit())})
+	}
+	if c.cfg.Display {
+		for _, rl := range g.Rules {
+			if c.chance(1, 3) {
+				rl.Display = []string{"the rest", "item", "a thing"}[c.r.Intn(3)]
+			}
+		}
 	}
 	return g
 }
